@@ -1,4 +1,5 @@
 import Carquet.Impl.Delta
+import Carquet.Gen.DeltaConstants
 /-
 Model of src/encoding/delta_length.c (DELTA_LENGTH_BYTE_ARRAY).  Fidelity: exact for the
 checks, their order, the statuses and the bytes; `malloc` failures and the growth of the output
@@ -25,13 +26,55 @@ def decode (data : List UInt8) (n : Int) : Except Status (List (List UInt8) × N
       else .ok (slices (lengths.map (fun l => l.toNat)) (data.drop consumed),
                 consumed + (lengths.map (fun l => l.toNat)).sum)
 
-/-- `lengths_capacity` -/
-def lengthsCapacity (n : Nat) : Nat := n * 10 + 100
+/-- the same loop with the pointers kept as data: `(values[i].data - data, values[i].length)`,
+the first value starting at `start = lengths_consumed` -/
+def sliceOffsets (start : Nat) : List Nat → List (Nat × Nat)
+  | [] => []
+  | l :: ls => (start, l) :: sliceOffsets (start + l) ls
+
+/-- `carquet_delta_length_decode` with the returned pointers as offsets into `data` (accesses as
+data, for C08): same checks, same order, same statuses as `decode` -/
+def decodeSlices (data : List UInt8) (n : Int) : Except Status (List (Nat × Nat) × Nat) :=
+  if n ≤ 0 then .error .invalidArgument
+  else match decodeInt32 data n.toNat with
+    | .error s => .error s
+    | .ok (lengths, consumed) =>
+      if lengths.any (fun l => l.toInt < 0) then .error .decode
+      else if data.length < consumed + (lengths.map (fun l => l.toNat)).sum then .error .decode
+      else .ok (sliceOffsets consumed (lengths.map (fun l => l.toNat)),
+                consumed + (lengths.map (fun l => l.toNat)).sum)
+
+/-- `lengths_capacity`: an implementation-chosen number, so the expression is re-extracted from
+delta_length.c on every run (`Gen.deltaLengthScratch`).  In the repaired code
+(fixes/F61-delta-bytes-scratch-capacity.patch) it is `40 + (n + 127) / 128 * (10 + 4 + 128 * 8)`: the 40
+bytes the header check of `carquet_delta_encode_int32` asks for, and for every started block of 128
+values the most `delta_encoder_flush_block` can ask for (10-byte min delta, 4 widths, 128 deltas of 64
+bits).  That the current expression suffices is `Proofs/DeltaBytesCap.lean`. -/
+def lengthsCapacity (n : Nat) : Nat := Carquet.Gen.deltaLengthScratch n
+
+/-- `lengths_capacity` before F61: "generous estimate" `num_values * 10 + 100` -/
+def lengthsCapacityPreFix (n : Nat) : Nat := n * 10 + 100
+
+/-- the length stream `carquet_delta_length_encode` writes first, as a function of the lengths
+alone (`pre = true`: scratch capacity before F61) -/
+def encodeLensWith (pre : Bool) (lens : List Nat) : Except Status (List UInt8) :=
+  if lens = [] then .error .invalidArgument
+  else encodeInt32 (lens.map (BitVec.ofNat 32))
+         (if pre then lengthsCapacityPreFix lens.length else lengthsCapacity lens.length)
+
+def encodeLens (lens : List Nat) : Except Status (List UInt8) := encodeLensWith false lens
 
 /-- `carquet_delta_length_encode(values, num_values, output)`: the bytes appended to `output` -/
 def encode (values : List (List UInt8)) : Except Status (List UInt8) :=
   if values = [] then .error .invalidArgument
   else match encodeInt32 (values.map (fun v => BitVec.ofNat 32 v.length)) (lengthsCapacity values.length) with
+    | .error s => .error s
+    | .ok lens => .ok (lens ++ values.flatten)
+
+/-- the encoder before F61 (scratch buffer of `10·n + 100` bytes for the length stream) -/
+def encodePreFix (values : List (List UInt8)) : Except Status (List UInt8) :=
+  if values = [] then .error .invalidArgument
+  else match encodeInt32 (values.map (fun v => BitVec.ofNat 32 v.length)) (lengthsCapacityPreFix values.length) with
     | .error s => .error s
     | .ok lens => .ok (lens ++ values.flatten)
 
